@@ -97,6 +97,11 @@ type spConn struct {
 	tracked  map[string]bool
 	ended    map[string]string // why the connection stopped tracking the key: untrack / removal / unsubscribe
 	app      map[string]int    // payload the application has per key (kept over untrack when it re-tracks with its version)
+	park     *cl.Gate          // the connection's track command is parked in OnCommandProcessed (between reply and hub join)
+	parkDone chan struct{}
+	parkKind string            // cached-item / same-version / zero: how the parked track stood to the server entry
+	parkKey  string            // the key the parked track is for
+	missed   map[string]string // key -> kind of the track window in which an update of the key passed this connection by
 	subbed   bool
 	neg      bool
 	consumed int
@@ -124,6 +129,7 @@ type spRunner struct {
 	barrier  chan struct{}
 	done     map[string]chan struct{}
 
+	trackPark map[string]*cl.Gate // client uid -> armed gate for its next successful track reply
 	free  bool // free-running mode: no gates, the backend answers at once, the refresh timer is on
 	conns map[string]*spConn
 	dummy *spConn
@@ -152,7 +158,7 @@ func newSPRunner(bi int, proto centrifuge.ProtocolType, versioned bool, free ...
 	r := &spRunner{proto: proto, versioned: versioned, free: len(free) > 0 && free[0], ch: fmt.Sprintf("sp%d_%d", vh.Seed(), bi),
 		bk: map[string]bkItem{}, defs: map[string]int{}, keyIDs: map[string]map[int]bool{}, gids: map[int64]string{}, policy: map[string]*parkPolicy{},
 		arrivals: make(chan *spArrival, 16), pending: map[string]*spArrival{}, barrier: make(chan struct{}, 16),
-		done: map[string]chan struct{}{}, conns: map[string]*spConn{}, uidOf: map[string]string{}}
+		done: map[string]chan struct{}{}, conns: map[string]*spConn{}, uidOf: map[string]string{}, trackPark: map[string]*cl.Gate{}}
 	r.pl = newPayloads(vh.Seed()*7919+int64(bi)*13+int64(len(proto)), proto == centrifuge.ProtocolTypeProtobuf, bi%2 == 0)
 	mode := centrifuge.SharedPollModeVersionless
 	if versioned {
@@ -181,6 +187,19 @@ func newSPRunner(bi int, proto centrifuge.ProtocolType, versioned bool, free ...
 		c.OnTrack(func(_ centrifuge.TrackEvent, cb centrifuge.TrackCallback) { cb(centrifuge.TrackReply{}, nil) })
 		c.OnSubRefresh(func(_ centrifuge.SubRefreshEvent, cb centrifuge.SubRefreshCallback) { cb(centrifuge.SubRefreshReply{}, nil) })
 	}
+	// natural gate between the track reply and the keyed-hub join: handleTrack calls handleCommandFinished there
+	env.Node.OnCommandProcessed(func(c *centrifuge.Client, e centrifuge.CommandProcessedEvent) {
+		if e.Command == nil || e.Command.SubRefresh == nil || e.Command.SubRefresh.Type != 1 || e.Error != nil || e.Reply == nil || e.Reply.Error != nil {
+			return
+		}
+		r.mu.Lock()
+		g := r.trackPark[c.ID()]
+		delete(r.trackPark, c.ID())
+		r.mu.Unlock()
+		if g != nil {
+			g.Arrive(30 * time.Second)
+		}
+	})
 	env.Node.OnSharedPoll(r.backend)
 	if err := env.Run(); err != nil {
 		return nil, err
@@ -357,7 +376,7 @@ func (r *spRunner) newConn(name string) (*spConn, error) {
 	if conn.Connect() == nil {
 		return nil, fmt.Errorf("connect failed")
 	}
-	c := &spConn{name: name, conn: conn, reqs: map[uint32]spFrame{}, held: map[string]*holder{}, cver: map[string]uint64{}, tracked: map[string]bool{}, ended: map[string]string{}, app: map[string]int{}}
+	c := &spConn{name: name, conn: conn, reqs: map[uint32]spFrame{}, held: map[string]*holder{}, cver: map[string]uint64{}, tracked: map[string]bool{}, ended: map[string]string{}, app: map[string]int{}, missed: map[string]string{}}
 	r.uidOf[name] = conn.Client.ID()
 	return c, nil
 }
@@ -733,12 +752,29 @@ func (r *spRunner) run(bi int, beh []map[string]any, compare bool, res *vh.Resul
 	}()
 	var snapshot *centrifuge.SharedPollResult
 	var snapKeys []string
-	type owed struct {
-		conn string
-		key  string
-		id   int
+	type owed = owedAny
+	var owes []owed // what an applied backend answer / publish obliges the server to have delivered once everything is at rest
+	dropOwes := func(conn, key string) {
+		kept := owes[:0]
+		for _, o := range owes {
+			if o.conn == conn && (key == "" || o.key == key) {
+				continue
+			}
+			kept = append(kept, o)
+		}
+		owes = kept
 	}
-	var owes []owed // what the last backend answer obliges the server to have delivered once the worker is idle again
+	owe := func(key string, id int, why string) {
+		for name, c := range r.conns {
+			if c.subbed && c.tracked[key] {
+				if c.park != nil && c.parkKey == key {
+					c.missed[key] = c.parkKind
+				}
+				win := c.missed[key]
+				owes = append(owes, owed{conn: name, key: key, id: id, why: why, win: win})
+			}
+		}
+	}
 	var pk struct {
 		k   string
 		ver uint64
@@ -795,17 +831,60 @@ func (r *spRunner) run(bi int, beh []map[string]any, compare bool, res *vh.Resul
 				drift(fmt.Sprintf("client version of %s differs: real %d model %d", k, c.cver[k], v))
 				break
 			}
+			dropOwes(c.name, k)
+			delete(c.missed, k)
 			id := c.conn.NextID()
 			c.reqs[id] = spFrame{T: "trackreply", K: k, Ver: int(v)}
-			c.conn.Do(&protocol.Command{Id: id, SubRefresh: &protocol.SubRefreshRequest{Channel: r.ch, Type: 1,
-				Track: []*protocol.TrackBatch{{Items: []*protocol.KeyedItem{{Key: k, Version: v}}}}}})
+			cmd := &protocol.Command{Id: id, SubRefresh: &protocol.SubRefreshRequest{Channel: r.ch, Type: 1,
+				Track: []*protocol.TrackBatch{{Items: []*protocol.KeyedItem{{Key: k, Version: v}}}}}}
+			// other steps between Track1 and Track2: the command is parked between its reply and the hub join
+			parkIt := !(si+1 < len(beh) && vh.Str(vh.Map(beh[si+1]["step"])["act"]) == "Track2" && vh.Str(vh.Map(beh[si+1]["step"])["c"]) == c.name)
+			if parkIt {
+				g, done := cl.NewGate(), make(chan struct{})
+				r.mu.Lock()
+				r.trackPark[r.uidOf[c.name]] = g
+				r.mu.Unlock()
+				go func() {
+					defer close(done)
+					r.mu.Lock()
+					r.gids[goid()] = "cmd"
+					r.mu.Unlock()
+					c.conn.Do(cmd)
+				}()
+				if !g.WaitArrived(spGateWait) {
+					drift("track command did not reach OnCommandProcessed")
+					break
+				}
+				c.park, c.parkDone, c.parkKey, c.parkKind = g, done, k, "zero"
+			} else {
+				c.conn.Do(cmd)
+			}
 			if rep := c.conn.WaitReply(id, 3*time.Second); rep == nil {
 				drift("track got no reply")
+			} else if parkIt {
+				c.parkKind = "zero"
+				if len(rep.SubRefresh.GetItems()) > 0 {
+					c.parkKind = "cached-item"
+				} else if v > 0 {
+					c.parkKind = "same-version"
+				}
 			}
 			nontrivial = true
+		case "Track2":
+			c := r.conns[vh.Str(step["c"])]
+			if c.park != nil {
+				c.park.Release()
+				select {
+				case <-c.parkDone:
+				case <-time.After(spGateWait):
+					drift("parked track command did not finish")
+				}
+				c.park, c.parkDone = nil, nil
+			}
 		case "Untrack":
 			c := r.conns[vh.Str(step["c"])]
 			k := vh.Str(step["k"])
+			dropOwes(c.name, k)
 			id := c.conn.NextID()
 			c.reqs[id] = spFrame{T: "untrackreply", K: k}
 			c.conn.Do(&protocol.Command{Id: id, SubRefresh: &protocol.SubRefreshRequest{Channel: r.ch, Type: 2, Untrack: []string{k}}})
@@ -814,6 +893,7 @@ func (r *spRunner) run(bi int, beh []map[string]any, compare bool, res *vh.Resul
 			}
 		case "ClientUnsub":
 			c := r.conns[vh.Str(step["c"])]
+			dropOwes(c.name, "")
 			id := c.conn.NextID()
 			c.conn.Do(&protocol.Command{Id: id, Unsubscribe: &protocol.UnsubscribeRequest{Channel: r.ch}})
 			if rep := c.conn.WaitReply(id, 3*time.Second); rep == nil {
@@ -853,14 +933,9 @@ func (r *spRunner) run(bi int, beh []map[string]any, compare bool, res *vh.Resul
 				if vh.Bool(step["late"]) {
 					snapshot = r.answer(snapKeys)
 				}
-				owes = owes[:0]
 				if !flipped {
 					for _, it := range snapshot.Items {
-						for name, c := range r.conns {
-							if c.subbed && c.tracked[it.Key] {
-								owes = append(owes, owed{name, it.Key, r.pl.idOf(it.Data)})
-							}
-						}
+						owe(it.Key, r.pl.idOf(it.Data), "refresh")
 					}
 				}
 				a.resume <- snapshot
@@ -918,7 +993,11 @@ func (r *spRunner) run(bi int, beh []map[string]any, compare bool, res *vh.Resul
 			r.mu.Unlock()
 			delete(r.pending, "r")
 			close(a.goOn)
-		case "Track2", "FlipUnsub", "FlipDone", "WApply", "PApply", "BNext", "BTargetsDone", "Prep", "RevDel", "RevEnd":
+		case "PApply":
+			if vh.Str(vh.Map(vh.Map(st["th"])["p"])["pc"]) == "bcast" { // the publish was newer than the entry and was applied
+				owe(pk.k, pk.id, "publish")
+			}
+		case "FlipUnsub", "FlipDone", "WApply", "BNext", "BTargetsDone", "Prep", "RevDel", "RevEnd":
 		default:
 			drift("unknown action " + act)
 		}
@@ -937,7 +1016,7 @@ func (r *spRunner) run(bi int, beh []map[string]any, compare bool, res *vh.Resul
 			pc := vh.Str(th["pc"])
 			return pc == "unsub" || pc == "apply" || (pc == "bcast" && !parkedWrite(th))
 		}
-		if running(thw) || running(thp) || (vh.Str(rv["pc"]) == "removal" && vh.Str(rv["c"]) == "none") || trackInFlight(st) {
+		if running(thw) || running(thp) || (vh.Str(rv["pc"]) == "removal" && vh.Str(rv["c"]) == "none") || (trackInFlight(st) && !r.anyParkedTrack()) {
 			continue // inside a run between two gates: nothing to observe yet
 		}
 		if parkedWrite(thw) {
@@ -992,8 +1071,15 @@ func (r *spRunner) run(bi int, beh []map[string]any, compare bool, res *vh.Resul
 		_ = flipped
 		// ---- observe
 		for name, c := range r.conns {
-			if closed, _ := c.conn.T.Closed(); !closed {
+			if closed, _ := c.conn.T.Closed(); !closed && c.park == nil {
 				c.conn.Barrier(2 * time.Second)
+			} else if c.park != nil {
+				// its reader is parked inside the track command: no barrier command; it is not in the keyed hub, the
+				// only thing that can still be written to it is the unsubscribe push of an epoch flip
+				want := len(spModelOut(st, name))
+				for i := 0; i < 100 && len(c.seen)+(len(c.conn.Frames())-c.consumed) < want; i++ {
+					time.Sleep(5 * time.Millisecond)
+				}
 			}
 			for _, v := range r.consume(c) {
 				violate(v, name)
@@ -1005,15 +1091,10 @@ func (r *spRunner) run(bi int, beh []map[string]any, compare bool, res *vh.Resul
 		// delivery monitor: the worker is idle again - a connection that tracked the key throughout must not be left
 		// with an OLDER payload than the one the backend answered (payload ids grow with every backend change)
 		// (only when nothing is parked anywhere: a parked publisher may still hold the newer payload for the connection)
-		if vh.Str(thw["pc"]) == "idle" && vh.Str(thp["pc"]) == "idle" && vh.Str(rv["pc"]) == "idle" && len(r.pending) == 0 {
-			for _, o := range owes {
-				c := r.conns[o.conn]
-				h := c.held[o.key]
-				if c.subbed && c.tracked[o.key] && h != nil && h.has {
-					if have := r.pl.idOf(h.held); have != 0 && have < o.id {
-						violate(spVerdict{"stale-after-refresh", fmt.Sprintf("the backend answered payload #%d for key %s, after the refresh was fully processed the connection still holds the older payload #%d (version %d); frames %s", o.id, o.key, have, c.cver[o.key], vh.J(c.seen))}, o.conn)
-					}
-				}
+		if vh.Str(thw["pc"]) == "idle" && vh.Str(thp["pc"]) == "idle" && vh.Str(rv["pc"]) == "idle" && len(r.pending) == 0 &&
+			!r.anyParkedTrack() && len(vh.List(st["notifq"])) == 0 {
+			for _, v := range r.checkOwes(owes) {
+				violate(v.v, v.conn)
 			}
 			owes = owes[:0]
 		}
@@ -1062,12 +1143,32 @@ func (r *spRunner) run(bi int, beh []map[string]any, compare bool, res *vh.Resul
 				}
 			}
 		}
+		parkedAtEnd := false
+		for _, c := range r.conns {
+			if c.park != nil {
+				parkedAtEnd = true
+				c.park.Release()
+				select {
+				case <-c.parkDone:
+				case <-time.After(spGateWait):
+				}
+				c.park = nil
+			}
+		}
+		if parkedAtEnd {
+			r.quiesceWorker() // the released track may have notified the worker (cold key / needsBroadcast)
+		}
 		for name, c := range r.conns {
 			if closed, _ := c.conn.T.Closed(); !closed {
 				c.conn.Barrier(2 * time.Second)
 			}
 			for _, v := range r.consume(c) {
 				violate(v, name)
+			}
+		}
+		if completed == 1 && len(r.pending) == 0 {
+			for _, v := range r.checkOwes(owes) {
+				violate(v.v, v.conn)
 			}
 		}
 	}
@@ -1345,4 +1446,47 @@ func sharedPollFreeMode(in json.RawMessage, res *vh.Result) error {
 	close(jobs)
 	wg.Wait()
 	return nil
+}
+
+func (r *spRunner) anyParkedTrack() bool {
+	for _, c := range r.conns {
+		if c.park != nil {
+			return true
+		}
+	}
+	return false
+}
+
+type owedAny struct {
+	conn, key, why, win string
+	id                  int
+}
+
+type connVerdict struct {
+	conn string
+	v    spVerdict
+}
+
+// checkOwes: everything is at rest - a connection that tracked the key when an update was applied (backend answer or
+// publish) and still tracks it must not be left with an OLDER payload (payload ids grow with every backend change).
+func (r *spRunner) checkOwes(owes []owedAny) []connVerdict {
+	var out []connVerdict
+	for _, o := range owes {
+		c := r.conns[o.conn]
+		if c == nil || !c.subbed || !c.tracked[o.key] {
+			continue
+		}
+		if have := c.app[o.key]; have < o.id {
+			sig := "stale-after-" + o.why
+			if o.win != "" {
+				sig += ":track-window:" + o.win
+			}
+			what := fmt.Sprintf("payload #%d of key %s was applied on the server (%s), with everything at rest the tracking connection still has payload #%d (version %d)", o.id, o.key, o.why, have, c.cver[o.key])
+			if o.win != "" {
+				what += "; the update landed while the connection's track command was between its reply and the keyed-hub join"
+			}
+			out = append(out, connVerdict{o.conn, spVerdict{sig, what + "; frames " + vh.J(c.seen)}})
+		}
+	}
+	return out
 }
